@@ -746,7 +746,13 @@ func (w *verifWorld) form(v2 bool, wend uint64) *verifContract {
 func (w *verifWorld) pickLive(v2 bool) *verifContract {
 	var l []*verifContract
 	for _, c := range w.cs {
-		if c.v2 == v2 && !c.renewed && c.wend > w.height()+2 {
+		// v1: the manager's guard (repaired in /repo 8fe98f6: evaluated when an updater is opened, at
+		// commit and at renewal) needs tip + revisionSubmissionBuffer (5 here) <= WindowStart = wend-1
+		margin := uint64(2)
+		if !v2 {
+			margin = 5
+		}
+		if c.v2 == v2 && !c.renewed && c.wend > w.height()+margin {
 			l = append(l, c)
 		}
 	}
